@@ -104,9 +104,7 @@ func (dtm *DataTransmissionMessage) Unmarshal(r io.Reader) error {
 
 	// TODO: Transfer Extension Items
 	if transferExtLen > 0 {
-		transferExtBuff := make([]byte, transferExtLen)
-
-		if _, err := io.ReadFull(r, transferExtBuff); err != nil {
+		if _, err := readBytes(r, uint64(transferExtLen)); err != nil {
 			return err
 		}
 	}
@@ -115,9 +113,9 @@ func (dtm *DataTransmissionMessage) Unmarshal(r io.Reader) error {
 	if err := binary.Read(r, binary.BigEndian, &dataLen); err != nil {
 		return err
 	} else if dataLen > 0 {
-		dtm.Data = make([]byte, dataLen)
-		if _, err := io.ReadFull(r, dtm.Data); err != nil {
-			return err
+		var dataErr error
+		if dtm.Data, dataErr = readBytes(r, dataLen); dataErr != nil {
+			return dataErr
 		} else if dataLen != uint64(len(dtm.Data)) {
 			return fmt.Errorf("XFER_SEGMENT's data length should be %d, got %d bytes", dataLen, len(dtm.Data))
 		}
